@@ -289,15 +289,17 @@ theorem C16_osopen_names_file (t : Tree) (cwd : List Str) (name : Str) (id : Nat
   · cases h
   · split at h
     · cases h
-    · rename_i segs hs
-      refine ⟨segs, hs, ?_⟩
-      split at h
-      · rename_i id' hl
+    · split at h
+      · cases h
+      · rename_i segs hs
+        refine ⟨segs, hs, ?_⟩
         split at h
-        · cases h
-        · rw [hl]; exact h
-      · rename_i hne
-        exact h
+        · rename_i id' hl
+          split at h
+          · cases h
+          · rw [hl]; exact h
+        · rename_i hne
+          exact h
 
 /-! ## Content-Disposition -/
 
@@ -520,9 +522,48 @@ example : subRootSegs (S' "./public/") = some [S' "public"] ∧ subRootSegs (S' 
 example : staticDirF ⟨false, false, false, true⟩ exT [S' "public"] (S' "a+b.txt") (S' "/s/a+b.txt")
     = ([S' "a+b.txt", S' "a+b.txt"], .error500) := by decide +kernel
 example : fsFileF noFaults (.os []) exT [] (S' "public/../secret") = ([S' "public/../secret"], .file 4) := by decide +kernel
+-- ... but physically: `nope/..` needs the directory `nope` (the lexical Clean would not)
+example : fsFileF noFaults (.os []) exT [] (S' "public/nope/../a+b.txt") = ([S' "public/nope/../a+b.txt"], .notFound404) ∧
+    fsFileF noFaults (.os []) exT [] (S' "public/dir/../a+b.txt") = ([S' "public/dir/../a+b.txt"], .file 1) := by decide +kernel
 example : fsFileF noFaults .io exT [] (S' "public/../secret") = ([S' "public/../secret"], .notFound404) := by decide +kernel
 -- Content-Disposition
 example : dispHeader (S' "attachment") (S' "a\"; x=\"b\\") = S' "attachment; filename=\"a\\\"; x=\\\"b\\\\\"" := by decide +kernel
+
+/-! ## when a configuration value is read (round 7)
+
+The definitions `staticRouteRoot`, `openTimeRoot`, `staticRouteFS`, `fileRouteFS` of the model fix
+WHICH of the four moments (`echo.New()`, registration, first request, each request) a value is
+taken from; the correspondence run sends all four values and ties the choice to the real code.
+The statements below are the consequences the property needs; they are short because the choice
+is the whole content. -/
+
+/-- **C16_static_root_fixed_at_new** — the root of an `Echo.Static` / `Group.Static` route on the
+    default file system depends on the working directory at `echo.New()` only: whatever the
+    process does afterwards (chdir before or after the registration, before any request) the route
+    serves the same directory. -/
+theorem C16_static_root_fixed_at_new (cwd cwd' : Times (List Str)) (roots : List Str)
+    (h : cwd.atNew = cwd'.atNew) : staticRouteRoot cwd roots = staticRouteRoot cwd' roots := by
+  simp [staticRouteRoot, h]
+
+/-- ... and with `C16_derive_second_level`: a relative root of real elements is that root below the
+    directory the earlier roots denote from the working directory of `echo.New()` -/
+theorem C16_static_root_second_level (cwd : Times (List Str)) (r1 : Str) (d F : List Str)
+    (h1 : dirRootSegs cwd.atNew r1 = some d) (hF : ∀ s ∈ F, Normal s) (hne : F ≠ []) :
+    staticRouteRoot cwd [r1, joinSep '/' F] = some (d ++ F) :=
+  C16_derive_second_level cwd.atNew r1 d F h1 hF hne
+
+/-- **C16_route_fs_fixed_at_registration** — a Static / StaticFS route (Echo or Group) serves from the
+    file system of registration time: reassigning `Echo.Filesystem` before the first request or
+    between requests does not move it -/
+theorem C16_route_fs_fixed_at_registration {α : Type} (fs fs' : Times α) (h : fs.atRegister = fs'.atRegister) :
+    staticRouteFS fs = staticRouteFS fs' := h
+
+-- the Static route keeps `W/public` after a chdir to `W/elsewhere`; `http.Dir("public")` of the middleware
+-- and a File route on the default file system name `W/elsewhere/public` from then on
+example : staticRouteRoot ⟨[], [], [S' "elsewhere"], [S' "elsewhere"]⟩ [S' "public"] = some [S' "public"] ∧
+    staticRouteRoot ⟨[], [S' "elsewhere"], [S' "elsewhere"], [S' "elsewhere"]⟩ [S' "public"] = some [S' "public"] ∧
+    openTimeRoot ⟨[], [], [S' "elsewhere"], [S' "elsewhere"]⟩ (S' "public") = some [S' "elsewhere", S' "public"] := by
+  decide +kernel
 
 end Examples
 
